@@ -6,7 +6,7 @@
    Drop) are covered per operation and by the correspondence run. *)
 From Coq Require Import ZArith List Bool Lia.
 From MV Require Import Ast Eval Scalar Machine Model Policy.
-From MV.Proofs Require Import Arith Logic Prim View OpsLocal Grow CapHistory Align CapHistory Core Refine Life.
+From MV.Proofs Require Import Arith Logic Prim View OpsLocal Grow CapHistory Align CapHistory Core Refine Life DrainIt DrainAbs IntoAbs.
 Import ListNotations.
 Open Scope Z_scope.
 
@@ -114,3 +114,22 @@ Proof. intros cfg Hc Hd. exact (whole_life_nothing_lost cfg (ncap_of cfg) Hc (nc
 
 Print Assumptions C03_drop_releases_the_block_with_its_layout.
 Print Assumptions C03_whole_life_respects_the_allocator.
+
+(* an IntoIter's whole life ends with the block given back to the allocator once, quoting the size and
+   alignment it was obtained with (the last event is that dealloc) -- on the normal and on the
+   panicking exit *)
+Theorem C03_into_iter_releases_the_block_once_with_its_layout :
+  forall cfg, cfg_ok cfg -> needs_drop cfg = true ->
+  forall s v b bl steps,
+  vec_at s v b bl -> block_ok cfg bl -> owned s bl ->
+  let l := velems bl in
+  let Q := fun s' =>
+    (forall x, In x (somes (fst (cursor l steps))) -> ledger s' x = Out) /\
+    (forall x, In x (snd (cursor l steps)) -> ledger s' x = Dropped) /\
+    (forall x, ~ In x l -> ledger s' x = ledger s x) /\ next_elem s' = next_elem s /\
+    nth_error (vecs s') v = Some None /\
+    (exists bl', nth_error (heap s') b = Some (kill bl')) /\
+    exists evs, events s' = EvDealloc (b_size bl) (b_align bl) :: evs in
+  post (into_whole cfg v steps s) (fun r s' => r = fst (cursor l steps) /\ Q s') Q.
+Proof. exact into_abs. Qed.
+Print Assumptions C03_into_iter_releases_the_block_once_with_its_layout.
